@@ -173,7 +173,7 @@ def histories(draw, o=None):
     kinds = []
     for k, dflt in (("cmd", 40), ("edit", 16), ("touch", 4), ("rmtarget", 8), ("setdo", 8), ("adddo", 4),
                     ("rmdo", 3), ("mkpath", 5), ("rmpath", 3), ("ext", 4), ("failflag", 6), ("query", 0),
-                    ("mwrite", 0), ("mreplace", 0), ("mremove", 0), ("redo", 8), ("stampflag", 0)):
+                    ("mwrite", 0), ("mreplace", 0), ("mremove", 0), ("redo", 8), ("stampflag", 0), ("crash", 0)):
         kinds += [k] * w.get(k, dflt)
     ops = []
     # locality: with probability p_focus an operation that names a target names one of 1-2 "focus" targets, so that
@@ -255,6 +255,11 @@ def histories(draw, o=None):
             names = sorted({s[1] for spec in dofiles.values() for s in spec["body"] if s[0] == "failflag"})
             if names:
                 ops.append(["failflag", _pick(draw, names), draw(st.integers(0, 1))])
+        elif k == "crash":
+            ts = [pick_target()]
+            cwd = _pick(draw, dirs) if draw(st.integers(0, 99)) < 30 else ""
+            ops.append(["crash", "redo" if draw(st.integers(0, 4)) == 0 else "ifchange", ts, cwd,
+                        draw(st.integers(1, 140)), draw(st.sampled_from(["group", "group", "self"]))])
         elif k == "stampflag":
             names = sorted({s[1] for spec in dofiles.values() for s in spec["body"] if s[0] == "stampif"})
             if names:
